@@ -10,9 +10,10 @@ from vmon import gen, objs
 
 
 class Templ:
-    def __init__(self, rng, p: float = 0.5, custom_var: bool = True):
+    def __init__(self, rng, p: float = 0.5, custom_var: bool = True, strided: bool = False):
         self.rng, self.p = rng, p
         self.custom_var = custom_var  # whole-array variables as CustomWaveform samples (not in the abstract format)
+        self.strided = strided        # interpolation values as a strided slice of a longer variable (opt-in)
         self.decls: list[dict] = []   # declare_variable ops
         self.values: dict = {}        # name -> value (scalar or list)
         self.kinds: dict = {}         # name -> "float" | "int"
@@ -139,7 +140,22 @@ class Templ:
             w["area"] = self.maybe_f(w["area"])
         elif k == "interp":
             if self.rng.random() < self.p:
-                n = self._new([float(v) for v in w["values"]], "float", size=len(w["values"]))
+                vals = [float(v) for v in w["values"]]
+                if self.strided and w.get("times") is None and self.rng.random() < 0.4:
+                    # the values are a strided selection of a longer variable (the omitted times are inferred from
+                    # the number of selected items)
+                    step = int(self.rng.choice([2, 3, -2]))
+                    m = (len(vals) - 1) * abs(step) + 1 + self.rng.randrange(abs(step))
+                    full = [round(self.rng.uniform(0, 1), 3) for _ in range(m)]
+                    pos = list(range(m))[::step][:len(vals)]
+                    if len(list(range(m))[::step]) == len(vals):
+                        for j, v in zip(pos, vals):
+                            full[j] = v
+                        n = self._new(full, "float", size=m)
+                        w["values"] = {"e": "var", "name": n, "sl": [None, None, step]}
+                        self.composite += 1
+                        return w
+                n = self._new(vals, "float", size=len(vals))
                 w["values"] = {"e": "var", "name": n}
                 self.composite += 1
             # (a list mixing literals and parametrized items is documented as refused)
